@@ -39,25 +39,34 @@ CONSTANTS NF,       \* features are 1..NF
           Depr,     \* [Feat -> Nat]        version that deprecated it, 0 = not deprecated
           Up,       \* [1..Latest-1 -> [SUBSET Feat -> SUBSET Feat]]  upgrade v -> v+1 (inside the universe)
           UpOut,    \* [1..Latest-1 -> [SUBSET Feat -> Nat]]  number of result features outside the universe
-          NObj      \* number of live objects of the state machine
+          NObj,     \* number of live objects of the state machine
+          FullBounds \* TRUE: lub/glb laws quantify over every kind of the version; FALSE: over Reps (see below)
 
 Feat     == 1..NF
 Versions == 1..Latest
 Max2(x, y) == IF x >= y THEN x ELSE y
 
-\* features a kind of version v may carry / that count in version v (get_valid_features)
-Avail(v) == {f \in Feat : Added[f] <= v}
-Valid(v) == {f \in Avail(v) : Depr[f] = 0 \/ Depr[f] > v}
+\* features a kind of version v may carry / that count in version v (get_valid_features);
+\* tabulated once (TLC re-evaluates operator bodies on every use)
+AvailT == TLCEval([v \in Versions |-> {f \in Feat : Added[f] <= v}])
+ValidT == TLCEval([v \in Versions |-> {f \in AvailT[v] : Depr[f] = 0 \/ Depr[f] > v}])
+Avail(v) == AvailT[v]
+Valid(v) == ValidT[v]
 
 -----------------------------------------------------------------------------
 (* kinds *)
-ComputedVer(F) == LET S == {Added[f] : f \in F} \cup {1} IN CHOOSE m \in S : \A n \in S : n <= m
+\* version=None: the newest version that introduced one of the features (1 if there is none)
+NewInT == TLCEval([v \in Versions |-> {f \in Feat : Added[f] = v}])
+RECURSIVE NewestIn(_, _)
+NewestIn(F, v) == IF v = 1 \/ F \cap NewInT[v] # {} THEN v ELSE NewestIn(F, v - 1)
+ComputedVer(F) == NewestIn(F, Latest)
 Ver(k)    == IF k.dv # 0 THEN k.dv ELSE ComputedVer(k.f)
 WFKind(k) == /\ k.dv \in 0..Latest
              /\ k.f \subseteq Feat
              /\ k.dv # 0 => k.f \subseteq Avail(k.dv)     \* asserted by the constructor and by set_*
 Kinds     == {k \in [dv : 0..Latest, f : SUBSET Feat] : WFKind(k)}
-KindsOfVer(v) == {k \in Kinds : Ver(k) = v}
+KindsOfVerT   == TLCEval([v \in Versions |-> {k \in Kinds : Ver(k) = v}])
+KindsOfVer(v) == KindsOfVerT[v]
 NoKind    == [dv |-> 0, f |-> {}]
 
 \* upgrading: feature set F of version v taken to version w >= v
@@ -82,18 +91,30 @@ Inter(a, b) == LET w == Max2(Ver(a), Ver(b)) IN [dv |-> w, f |-> Lift(a, w).f \c
 \* everything a hash consistent with Eq may depend on
 HashKey(k)  == <<Ver(k), Norm(k)>>
 
-\* declarative bounds (no reference to Union / Inter)
+\* declarative bounds (no reference to Union / Inter): r is a least upper / greatest lower bound of a and b
+\* among the kinds S of the newer version
 IsUpper(r, a, b) == Le(a, r) /\ Le(b, r)
 IsLower(r, a, b) == Le(r, a) /\ Le(r, b)
-IsLub(r, a, b) == /\ Ver(r) = Max2(Ver(a), Ver(b)) /\ IsUpper(r, a, b)
-                  /\ \A c \in KindsOfVer(Ver(r)) : IsUpper(c, a, b) => Le(r, c)
-IsGlb(r, a, b) == /\ Ver(r) = Max2(Ver(a), Ver(b)) /\ IsLower(r, a, b)
-                  /\ \A c \in KindsOfVer(Ver(r)) : IsLower(c, a, b) => Le(c, r)
+IsLubIn(S, r, a, b) == /\ Ver(r) = Max2(Ver(a), Ver(b)) /\ IsUpper(r, a, b)
+                       /\ \A c \in S : IsUpper(c, a, b) => Le(r, c)
+IsGlbIn(S, r, a, b) == /\ Ver(r) = Max2(Ver(a), Ver(b)) /\ IsLower(r, a, b)
+                       /\ \A c \in S : IsLower(c, a, b) => Le(c, r)
+\* one representative per Eq-class of version v: declared version v and only valid features.
+\* NormalForm(c) is in Reps and Eq to c (RepOK); Le cannot tell Eq kinds of one version apart
+\* (EqCongruent, checked for every pair); hence a bound that is least among Reps is least among all
+\* kinds of the version.  The quick configuration quantifies over Reps, the thorough one over all kinds.
+RepsT == TLCEval([v \in Versions |-> {[dv |-> v, f |-> N] : N \in SUBSET Valid(v)}])
+NormalForm(c) == [dv |-> Ver(c), f |-> Norm(c)]
+Others(v) == IF FullBounds THEN KindsOfVer(v) ELSE RepsT[v]
+IsLub(r, a, b) == IsLubIn(Others(Max2(Ver(a), Ver(b))), r, a, b)
+IsGlb(r, a, b) == IsGlbIn(Others(Max2(Ver(a), Ver(b))), r, a, b)
 
 -----------------------------------------------------------------------------
 (* the laws of C33, stated for a pair (a, b); third kinds are quantified inside *)
 SameVer(a, b) == Ver(a) = Ver(b)
 Reflexive(a)      == Le(a, a) /\ Eq(a, a)
+RepsAreKinds      == TLCEval(\A v \in Versions : RepsT[v] \subseteq KindsOfVer(v))
+RepOK(a)          == RepsAreKinds /\ NormalForm(a) \in RepsT[Ver(a)] /\ Eq(a, NormalForm(a))
 Antisym(a, b)     == SameVer(a, b) => ((Le(a, b) /\ Le(b, a)) <=> Eq(a, b))
 Transitive(a, b)  == (SameVer(a, b) /\ Le(a, b)) => \A c \in KindsOfVer(Ver(a)) : Le(b, c) => Le(a, c)
 \* equal kinds cannot be told apart by Le among kinds of their version (so "the" lub is defined up to Eq)
@@ -116,57 +137,65 @@ UpgradeWF(a) == \A w \in Ver(a)..Latest :
                    /\ (Norm(a) \cap Valid(w)) \subseteq Lift(a, w).f
 
 -----------------------------------------------------------------------------
-(* state machine: objects and queries *)
-VARIABLES objs, ret
-vars == <<objs, ret>>
+(* state machine: objects are created (constructor), then queried *)
+VARIABLES objs, live, ret
+vars == <<objs, live, ret>>
 
 NoRet == [op |-> "none", i |-> 0, j |-> 0, w |-> 0, b |-> FALSE, k |-> NoKind]
-Init == objs \in [1..NObj -> Kinds] /\ ret = NoRet
+Init == objs = [i \in 1..NObj |-> NoKind] /\ live = {} /\ ret = NoRet
+
+\* ProblemKind(features, version): objects are numbered in creation order
+New(i, k)    == /\ i \notin live /\ i = Cardinality(live) + 1 /\ k \in Kinds
+                /\ objs' = [objs EXCEPT ![i] = k] /\ live' = live \cup {i} /\ ret' = NoRet
 
 QEq(i, j)    == /\ EqSpecified(objs[i], objs[j])
                 /\ ret' = [op |-> "eq", i |-> i, j |-> j, w |-> 0, b |-> Eq(objs[i], objs[j]), k |-> NoKind]
-                /\ UNCHANGED objs
+                /\ UNCHANGED <<objs, live>>
 QLe(i, j)    == /\ ret' = [op |-> "le", i |-> i, j |-> j, w |-> 0, b |-> Le(objs[i], objs[j]), k |-> NoKind]
-                /\ UNCHANGED objs
+                /\ UNCHANGED <<objs, live>>
 QUnion(i, j) == /\ ret' = [op |-> "union", i |-> i, j |-> j, w |-> 0, b |-> FALSE, k |-> Union(objs[i], objs[j])]
-                /\ UNCHANGED objs
+                /\ UNCHANGED <<objs, live>>
 QInter(i, j) == /\ ret' = [op |-> "inter", i |-> i, j |-> j, w |-> 0, b |-> FALSE, k |-> Inter(objs[i], objs[j])]
-                /\ UNCHANGED objs
+                /\ UNCHANGED <<objs, live>>
 \* a <= a.union(b) etc.: compound queries on the same objects
+BoundOps == {"ub1", "ub2", "lb1", "lb2"}
 QBound(i, j, which) ==
    LET a == objs[i]  b == objs[j]
        v == CASE which = "ub1" -> Le(a, Union(a, b)) [] which = "ub2" -> Le(b, Union(a, b))
               [] which = "lb1" -> Le(Inter(a, b), a) [] which = "lb2" -> Le(Inter(a, b), b)
    IN /\ ret' = [op |-> which, i |-> i, j |-> j, w |-> 0, b |-> v, k |-> NoKind]
-      /\ UNCHANGED objs
+      /\ UNCHANGED <<objs, live>>
 \* upgrade both (same-version) objects to version w and compare the upgraded copies
 QUpLe(i, j, w) == /\ SameVer(objs[i], objs[j]) /\ w \in Ver(objs[i])..Latest
                   /\ ret' = [op |-> "uple", i |-> i, j |-> j, w |-> w,
                              b |-> Le(Lift(objs[i], w), Lift(objs[j], w)), k |-> NoKind]
-                  /\ UNCHANGED objs
+                  /\ UNCHANGED <<objs, live>>
 \* an operation on which the property statement is silent (== across versions)
-QUnspecified(i, j) == ~EqSpecified(objs[i], objs[j]) /\ ret' = NoRet /\ UNCHANGED objs
+QUnspecified(i, j) == ~EqSpecified(objs[i], objs[j]) /\ ret' = [NoRet EXCEPT !.op = "unspecified"] /\ UNCHANGED <<objs, live>>
 
-Next == \E i \in 1..NObj, j \in 1..NObj :
+Query == \E i \in live, j \in live :
            \/ QEq(i, j) \/ QLe(i, j) \/ QUnion(i, j) \/ QInter(i, j)
-           \/ \E wh \in {"ub1", "ub2", "lb1", "lb2"} : QBound(i, j, wh)
+           \/ \E wh \in BoundOps : QBound(i, j, wh)
            \/ \E w \in Versions : QUpLe(i, j, w)
            \/ QUnspecified(i, j)
+Next == (\E i \in 1..NObj, k \in Kinds : New(i, k)) \/ Query
 Spec == Init /\ [][Next]_vars
 
-\* every operation is a query
-QueryPure == [][objs' = objs]_vars
+\* every operation other than a constructor is a query
+QueryPure == [][ret'.op # "none" => (objs' = objs /\ live' = live)]_vars
 
 \* T1: the laws on the first two objects (all pairs; third kinds quantified inside the laws)
 A1 == objs[1]
-A2 == objs[IF NObj >= 2 THEN 2 ELSE 1]
-LawOrder   == Reflexive(A1) /\ Antisym(A1, A2) /\ Transitive(A1, A2) /\ EqCongruent(A1, A2)
-LawBounds  == UnionIsLub(A1, A2) /\ InterIsGlb(A1, A2)
-LawHash    == HashConsistent(A1, A2)
-LawUpgrade == UpgradeMonotone(A1, A2) /\ CrossByUpgrade(A1, A2) /\ CrossBounds(A1, A2)
-LawTables  == UpgradeWF(A1)
+A2 == objs[2]
+Both == live = {1, 2}
+LawOrder   == Both => Reflexive(A1) /\ RepOK(A1) /\ Antisym(A1, A2) /\ Transitive(A1, A2) /\ EqCongruent(A1, A2)
+LawBounds  == Both => UnionIsLub(A1, A2) /\ InterIsGlb(A1, A2)
+LawHash    == Both => HashConsistent(A1, A2)
+LawUpgrade == Both => UpgradeMonotone(A1, A2) /\ CrossByUpgrade(A1, A2)
+LawCross   == Both => CrossBounds(A1, A2)
+LawTables  == 1 \in live => UpgradeWF(A1)
 \* the bound laws hold of the values the queries return
-RetOK == /\ ret.op \in {"ub1", "ub2", "lb1", "lb2"} => ret.b
+RetOK == /\ ret.op \in BoundOps => ret.b
          /\ (ret.op = "uple" /\ Le(objs[ret.i], objs[ret.j])) => ret.b
-ViewObjs == objs
+ViewObjs == <<objs, live>>
 =============================================================================
